@@ -17,7 +17,13 @@ Mirrors:
                         UniformMaterialObject:       arr[:, slice] = value             (1/x, or 3x3 inverse at tier 9)
                         StaticMultiMaterialObject:   arr[:, slice] = inv(inv(arr) + mask * (value - inv(arr)))
                                                      cond[:, slice] += mask * (value*spacing - cond)
-Simplified / not modelled: sub-pixel smoothing, dispersion arrays, complex fields, sharding.  A multi-material
+  sub-pixel smoothing   per OBJECT (`use_subpixel = any_object_subpixel_smoothing and o.subpixel_smoothing`): a smoothed
+                        multi-material object runs the diagonal Farjadpour blend on its whole grid slice
+                        (eps_bar/eps_h from the xx entries of the object material and of what lies underneath,
+                        eps_ii = eps_bar - (eps_bar - eps_h) n_i^2), every other object is painted as usual; any smoothed
+                        object forces the 3-component permittivity tier
+Simplified / not modelled: the full-tensor smoothing variant (`subpixel_full_tensor`), fractional fill (the fill
+fraction is the 0/1 voxel mask, as for Sphere/Cylinder), dispersion arrays, complex fields, sharding.  A multi-material
 object paints one material (`material_name`, as Sphere/Cylinder do); its whole `materials` dict still enters the
 tier selection.  The voxel mask and the grid slice are inputs (rasterisation is C43).  Arrays are functions
 cell → `V9` (nine stored components, of which the first `n` are meaningful at tier `n`); scalars are generic.
@@ -41,6 +47,8 @@ structure SObj (ι α : Type) where
   mask : ι → Bool           -- `get_voxel_mask_for_shape()` at the cell (read for multi-material objects only)
   mat : Mat α               -- the material painted
   mats : List (Mat α)       -- every material attached to the object (`material` or all `materials.values()`)
+  smooth : Bool             -- `subpixel_smoothing` (multi-material objects only)
+  nrm2 : ι → Nat → α        -- squared components n_i^2 of `get_interface_normal_for_shape()` (read when smoothed)
 
 variable {ι α : Type}
 
@@ -136,6 +144,24 @@ def paintInv (n : Nat) (prop : Mat α → Nat → α) (c : ι) (cur : V9 α) (o 
       V9.ofFn (invTier n q.get)
   else cur
 
+/-- one painter step on one cell of `inv_permittivities`: a smoothed multi-material object blends the xx entries
+over its whole grid slice (diagonal variant), everything else is `paintInv`.  The switch is the object's own flag. -/
+def paintEps (n : Nat) (c : ι) (cur : V9 α) (o : SObj ι α) : V9 α :=
+  if o.smooth && !o.uniform then
+    if o.inBox c then
+      let p := V9.ofFn (invTier n cur.get)
+      let cv := tierVal n o.mat.eps
+      let m : α := if o.mask c then 1 else 0          -- fill fraction (0/1: no fractional rasteriser)
+      let eps1 := p.get 0
+      let eps2 := cv 0
+      let epsBar := m * eps2 + (1 - m) * eps1
+      let epsH := 1 / (m / eps2 + (1 - m) / eps1)
+      let delta := epsBar - epsH
+      let q := V9.ofFn (fun k => epsBar - delta * o.nrm2 c k)
+      V9.ofFn (invTier n q.get)
+    else cur
+  else paintInv n (·.eps) c cur o
+
 /-- one painter step on one cell of a conductivity array -/
 def paintCond (n : Nat) (sp : α) (prop : Mat α → Nat → α) (c : ι) (cur : V9 α) (o : SObj ι α) : V9 α :=
   if o.inBox c then
@@ -171,13 +197,14 @@ def allMats (objs : List (SObj ι α)) (devMats : List (Mat α)) : List (Mat α)
 def initArrays (close : α → α → Bool) (c dt courant : α) (objs : List (SObj ι α)) (devMats : List (Mat α)) :
     Arrays ι α :=
   let ms := allMats objs devMats
-  let nEps := tierOf close (ms.map (·.eps))
+  -- any smoothed object: `isotropic_permittivity = False; diagonally_anisotropic_permittivity = True`
+  let nEps := if objs.any (fun o => o.smooth && !o.uniform) then 3 else tierOf close (ms.map (·.eps))
   let nMu := tierOf close (ms.map (·.mu))
   let nSe := tierOf close (ms.map (·.sigE))
   let nSm := tierOf close (ms.map (·.sigM))
   let sp := condSpacing c dt courant
   { nEps := nEps
-    invEps := paintAll (paintInv nEps (·.eps)) objs
+    invEps := paintAll (paintEps nEps) objs
     invMu := if ms.all (fun m => isUnit close m.mu) then none
              else some (nMu, paintAll (paintInv nMu (·.mu)) objs)
     sigE := if ms.all (fun m => isNull close m.sigE) then none
@@ -217,22 +244,34 @@ def takeMats : Nat → List String → Option (List (Mat Float) × List String)
       | some fs, some (ms, r) => some (matOf fs :: ms, r)
       | _, _ => none
 
-/-- objects: `order uniform(0/1) boxbits maskbits nmats mat…` -/
+/-- objects: `order kind boxbits maskbits [3N hex: n_i^2 component-major, kind 2 only] nmats mat…`
+with kind 1 = uniform, 0 = multi-material, 2 = multi-material with sub-pixel smoothing -/
 def takeObjs (N : Nat) : Nat → List String → Option (List (SObj Nat Float) × List String)
   | 0, rest => some ([], rest)
-  | cnt + 1, ord :: uni :: bb :: mb :: nm :: rest =>
-    match parseInt ord, bitsOf bb N, bitsOf mb N, parseNat nm with
-    | some ord, some bb, some mb, some nm =>
-      if nm = 0 ∨ (uni ≠ "0" ∧ uni ≠ "1") then none else
-      match takeMats nm rest with
-      | some (m :: ms, r) =>
-        match takeObjs N cnt r with
-        | some (os, r') =>
-          some ({ order := ord, uniform := uni == "1", inBox := fun c => bb.getD c false,
-                  mask := fun c => mb.getD c false, mat := m, mats := m :: ms } :: os, r')
+  | cnt + 1, ord :: uni :: bb :: mb :: rest0 =>
+    if uni ≠ "0" ∧ uni ≠ "1" ∧ uni ≠ "2" then none else
+    let nrmPart : Option (Array Float × List String) :=
+      if uni == "2" then
+        match takeN (3 * N) rest0 with
+        | some (hd, tl) => (floatsOfHex hd).map (fun fs => (fs.toArray, tl))
         | none => none
-      | _ => none
-    | _, _, _, _ => none
+      else some (#[], rest0)
+    match nrmPart with
+    | some (nrm, nm :: rest) =>
+      match parseInt ord, bitsOf bb N, bitsOf mb N, parseNat nm with
+      | some ord, some bb, some mb, some nm =>
+        if nm = 0 then none else
+        match takeMats nm rest with
+        | some (m :: ms, r) =>
+          match takeObjs N cnt r with
+          | some (os, r') =>
+            some ({ order := ord, uniform := uni == "1", inBox := fun c => bb.getD c false,
+                    mask := fun c => mb.getD c false, mat := m, mats := m :: ms, smooth := uni == "2",
+                    nrm2 := fun c k => nrm.getD (k * N + c) 0.0 } :: os, r')
+          | none => none
+        | _ => none
+      | _, _, _, _ => none
+    | _ => none
   | _, _ => none
 
 def showArr (N n : Nat) (f : Nat → V9 Float) : String :=
